@@ -64,6 +64,9 @@ type Locker interface {
 // The root directory path should generally be a data directory path.
 // The root directory must exist.
 func NewLocker(rootDirPath string, options ...LockerOption) (Locker, error) {
+	if locker := verifLocker(rootDirPath); locker != nil {
+		return locker, nil
+	}
 	return newLocker(rootDirPath, options...)
 }
 
